@@ -11,6 +11,11 @@ package c15
 //   - WriteTo(sink) is a reader that keeps taking whole chunks until the direction is closed
 //     (CloseWrite by the peer: nil error; CloseRead locally: io.ErrClosedPipe), its read deadline
 //     fires, or the sink fails (the writer is told how much the sink accepted);
+//   - a sink may block inside its Write (gated sink, released by a plan step): until it returns, the
+//     chunk is not acknowledged, the WriteTo and the waiting Write do not return whatever happens to
+//     closes and deadlines meanwhile; when it returns the writer is told what the sink accepted and
+//     both calls go on under the close/deadline state of that moment (so a deadline that fired and
+//     was cleared or moved to the future before the sink returned does not fail the WriteTo);
 //   - CloseWrite(W): W's writes fail with io.ErrClosedPipe, the peer's reads return io.EOF;
 //     CloseRead(R): R's reads and the peer's writes fail with io.ErrClosedPipe; the other
 //     direction is not affected;
@@ -87,6 +92,18 @@ type pcall struct {
 	N    int   // bytes so far (Write: consumed by readers; WriteTo: accepted by the sink)
 	Sent bool  // Write: at least one rendezvous happened
 	Segs []seg // WriteTo: what the sink has received so far (copy on write)
+
+	// WriteTo into a gated sink (its Write blocks until a Release step): while the sink's Write is
+	// pending the chunk is in flight: the WriteTo is inside the destination's Write and the writer
+	// waits for the count of bytes the sink consumed; neither watches closes or deadlines until the
+	// sink returns (a write reports only what the reader consumed; WriteTo "writes data to w until
+	// there's no more data or an error occurs" and evaluates its deadline/close state afterwards).
+	Gated    bool
+	InSink   bool // WriteTo: sink.Write pending with SinkK bytes of write SinkW at offset SinkOff
+	SinkK    int
+	SinkW    int
+	SinkOff  int
+	AwaitAck bool // Write: its current chunk is inside a gated sink
 }
 
 // dirState is one direction: writer end W -> reader end R.
@@ -153,6 +170,14 @@ type facts struct {
 	WriteToMoved bool
 	Fork         bool // lenient non-determinism other than reader choice was exercised
 	Refreshed    bool // bytes moved for a side whose deadline had fired earlier and was refreshed since
+
+	GatedMoved      bool // a gated sink was released and its chunk acknowledged
+	DlChangedInSink bool // Set*Deadline changed the read deadline of an end whose WriteTo was inside the sink's Write
+	DlClearedInSink bool // ... from expired to not expired (fired and cleared before the sink returned)
+	DlFiredInSink   bool // a read deadline expired (set to the past or reached) while the WriteTo was inside the sink's Write
+	CloseInSink     bool // the direction was closed while a chunk was inside the sink
+	WdlInSink       bool // the waiting writer's deadline changed / fired while its chunk was inside the sink
+	StepInSink      bool // any step executed while a sink's Write was pending
 }
 
 func (f *facts) or(g facts) {
@@ -168,6 +193,13 @@ func (f *facts) or(g facts) {
 	f.WriteToMoved = f.WriteToMoved || g.WriteToMoved
 	f.Fork = f.Fork || g.Fork
 	f.Refreshed = f.Refreshed || g.Refreshed
+	f.GatedMoved = f.GatedMoved || g.GatedMoved
+	f.DlChangedInSink = f.DlChangedInSink || g.DlChangedInSink
+	f.DlClearedInSink = f.DlClearedInSink || g.DlClearedInSink
+	f.DlFiredInSink = f.DlFiredInSink || g.DlFiredInSink
+	f.CloseInSink = f.CloseInSink || g.CloseInSink
+	f.WdlInSink = f.WdlInSink || g.WdlInSink
+	f.StepInSink = f.StepInSink || g.StepInSink
 }
 
 type outcome struct {
@@ -198,7 +230,51 @@ func readClosedErrs(ds *dirState, k callKind) errClass {
 
 // settle brings direction d to quiescence and returns every allowed result.
 // fresh is the id of the call started in this step (-1 if none); it only feeds the facts.
+//
+// Calls parked around a gated sink (the WriteTo inside sink.Write and the writer waiting for its
+// count) take no part: they are set aside and put back unchanged.
 func settle(o outcome, d int, fresh int) []outcome {
+	o.M = o.M.clone()
+	ds := &o.M.D[d]
+	var parkW, parkR, actW, actR []pcall
+	for _, w := range ds.Wr {
+		if w.AwaitAck {
+			parkW = append(parkW, w)
+		} else {
+			actW = append(actW, w)
+		}
+	}
+	for _, r := range ds.Rd {
+		if r.InSink {
+			parkR = append(parkR, r)
+		} else {
+			actR = append(actR, r)
+		}
+	}
+	if len(parkW) == 0 && len(parkR) == 0 {
+		return settleActive(o, d, fresh)
+	}
+	ds.Wr, ds.Rd = actW, actR
+	outs := settleActive(o, d, fresh)
+	for i := range outs {
+		outs[i].M = outs[i].M.clone()
+		x := &outs[i].M.D[d]
+		x.Wr = append(append([]pcall(nil), parkW...), x.Wr...)
+		x.Rd = append(append([]pcall(nil), parkR...), x.Rd...)
+	}
+	return outs
+}
+
+func (ds *dirState) sinkPending() bool {
+	for _, r := range ds.Rd {
+		if r.InSink {
+			return true
+		}
+	}
+	return false
+}
+
+func settleActive(o outcome, d int, fresh int) []outcome {
 	o.M = o.M.clone()
 	ds := &o.M.D[d]
 	rev := &o.M.D[1-d]
@@ -301,6 +377,15 @@ func settle(o outcome, d int, fresh int) []outcome {
 			removeR = true
 		case cWriteTo:
 			nr := r
+			if r.Gated { // the chunk goes into the sink's pending Write; nothing is acknowledged yet
+				nr.InSink, nr.SinkK, nr.SinkW, nr.SinkOff = true, chunk, w.ID, w.N
+				bs.Rd[i] = nr
+				pw := w
+				pw.AwaitAck = true
+				bs.Wr = []pcall{pw}
+				outs = append(outs, settle(b, d, fresh)...)
+				continue
+			}
 			if r.Size >= 0 && chunk > r.Size {
 				k = r.Size
 			} else {
@@ -374,10 +459,11 @@ const (
 	opSetWD
 	opSetD
 	opAdvance
+	opRelease // let the pending Write of a gated sink of this end return
 	nOps
 )
 
-var opNames = [...]string{"Write", "Read", "WriteTo", "CloseWrite", "CloseRead", "Close", "SetReadDeadline", "SetWriteDeadline", "SetDeadline", "Advance"}
+var opNames = [...]string{"Write", "Read", "WriteTo", "CloseWrite", "CloseRead", "Close", "SetReadDeadline", "SetWriteDeadline", "SetDeadline", "Advance", "ReleaseSink"}
 
 func (k opKind) String() string { return opNames[k] }
 
@@ -392,9 +478,10 @@ const (
 type step struct {
 	Op  opKind `json:"op"`
 	End int    `json:"end"`
-	N   int    `json:"n"`  // Write: len(b); Read: len(buf); WriteTo: sink capacity (-1 unlimited)
-	DL  int    `json:"dl"` // deadline kind for Set*
-	D   int    `json:"d"`  // ms: Advance amount, or future deadline distance (plus 500us)
+	N   int    `json:"n"`           // Write: len(b); Read: len(buf); WriteTo: sink capacity (-1 unlimited)
+	DL  int    `json:"dl"`          // deadline kind for Set*
+	D   int    `json:"d"`           // ms: Advance amount, or future deadline distance (plus 500us)
+	G   bool   `json:"g,omitempty"` // WriteTo: the sink's Write blocks until a ReleaseSink step of that end
 }
 
 func (s step) String() string {
@@ -403,6 +490,9 @@ func (s step) String() string {
 	case opWrite, opRead:
 		return fmt.Sprintf("%s.%s(%d)", e, s.Op, s.N)
 	case opWriteTo:
+		if s.G {
+			return fmt.Sprintf("%s.WriteTo(gated sink cap=%d)", e, s.N)
+		}
 		return fmt.Sprintf("%s.WriteTo(sink cap=%d)", e, s.N)
 	case opSetRD, opSetWD, opSetD:
 		switch s.DL {
@@ -444,7 +534,59 @@ func newDeadline(now time.Duration, s step) deadline {
 func (m model) apply(st step, id int, setErr bool) (outs []outcome, bad string) {
 	o := outcome{M: m.clone()}
 	e := st.End
+	if o.M.D[0].sinkPending() || o.M.D[1].sinkPending() {
+		o.F.StepInSink = true
+	}
 	switch st.Op {
+	case opRelease:
+		d := 1 - e
+		ds := &o.M.D[d]
+		idx := -1
+		for i, r := range ds.Rd {
+			if r.InSink {
+				idx = i
+			}
+		}
+		if idx < 0 || len(ds.Wr) == 0 || !ds.Wr[0].AwaitAck {
+			return nil, "release-without-pending-sink"
+		}
+		r, w := ds.Rd[idx], ds.Wr[0]
+		k, failed := r.SinkK, false
+		if r.Size >= 0 && k > r.Size {
+			k, failed = r.Size, true
+		}
+		r.N += k
+		if k > 0 {
+			r.Segs = append(append([]seg(nil), r.Segs...), seg{r.SinkW, r.SinkOff, k})
+			o.F.WriteToMoved = true
+			if rev := &o.M.D[1-d]; rev.ClosedW || rev.ClosedR {
+				o.F.HalfReverse = true
+			}
+		}
+		if r.Size >= 0 {
+			r.Size -= k
+		}
+		if r.SinkK == 0 {
+			o.F.ZeroW = true
+		}
+		r.InSink, r.SinkK, r.SinkW, r.SinkOff = false, 0, 0, 0
+		o.F.GatedMoved = true
+		w.N += k
+		w.Sent, w.AwaitAck = true, false
+		if failed {
+			o.F.SinkFail = true
+			o = o.withComp(comp{ID: r.ID, Kind: cWriteTo, N: r.N, Errs: eSink, Segs: r.Segs})
+			ds.Rd = append(append([]pcall(nil), ds.Rd[:idx]...), ds.Rd[idx+1:]...)
+		} else {
+			ds.Rd[idx] = r
+		}
+		if w.N == w.Size {
+			o = o.withComp(comp{ID: w.ID, Kind: cWrite, N: w.N, Errs: eNil})
+			ds.Wr = nil
+		} else {
+			ds.Wr[0] = w
+		}
+		return settle(o, d, -1), ""
 	case opWrite:
 		ds := &o.M.D[e]
 		ds.Wr = append(ds.Wr, pcall{ID: id, Kind: cWrite, Size: st.N})
@@ -455,15 +597,18 @@ func (m model) apply(st step, id int, setErr bool) (outs []outcome, bad string) 
 		return settle(o, 1-e, id), ""
 	case opWriteTo:
 		ds := &o.M.D[1-e]
-		ds.Rd = append(ds.Rd, pcall{ID: id, Kind: cWriteTo, Size: st.N})
+		ds.Rd = append(ds.Rd, pcall{ID: id, Kind: cWriteTo, Size: st.N, Gated: st.G})
 		return settle(o, 1-e, id), ""
 	case opCloseWrite:
+		o.F.CloseInSink = o.M.D[e].sinkPending()
 		o.M.D[e].ClosedW = true
 		return settle(o, e, -1), ""
 	case opCloseRead:
+		o.F.CloseInSink = o.M.D[1-e].sinkPending()
 		o.M.D[1-e].ClosedR = true
 		return settle(o, 1-e, -1), ""
 	case opClose:
+		o.F.CloseInSink = o.M.D[e].sinkPending() || o.M.D[1-e].sinkPending()
 		o.M.D[1-e].ClosedR = true
 		o.M.D[e].ClosedW = true
 		return settleBoth(o, -1), ""
@@ -513,11 +658,21 @@ func (m model) apply(st step, id int, setErr bool) (outs []outcome, bad string) 
 					continue
 				}
 				if t.read {
-					s.M.D[1-e].Rdl = nd
-					s.M.D[1-e].RFired = s.M.D[1-e].RFired || nd.Kind == dlExpired
+					x := &s.M.D[1-e]
+					if x.sinkPending() {
+						s.F.DlChangedInSink = true
+						s.F.DlClearedInSink = s.F.DlClearedInSink || (x.Rdl.Kind == dlExpired && nd.Kind != dlExpired)
+						s.F.DlFiredInSink = s.F.DlFiredInSink || nd.Kind == dlExpired
+					}
+					x.Rdl = nd
+					x.RFired = x.RFired || nd.Kind == dlExpired
 				} else {
-					s.M.D[e].Wdl = nd
-					s.M.D[e].WFired = s.M.D[e].WFired || nd.Kind == dlExpired
+					x := &s.M.D[e]
+					if x.sinkPending() {
+						s.F.WdlInSink = true
+					}
+					x.Wdl = nd
+					x.WFired = x.WFired || nd.Kind == dlExpired
 				}
 			}
 			if len(combos) > 1 {
@@ -532,9 +687,11 @@ func (m model) apply(st step, id int, setErr bool) (outs []outcome, bad string) 
 			ds := &o.M.D[i]
 			if ds.Rdl.Kind == dlAt && ds.Rdl.At <= o.M.Now {
 				ds.Rdl, ds.RFired = deadline{Kind: dlExpired}, true
+				o.F.DlFiredInSink = o.F.DlFiredInSink || ds.sinkPending()
 			}
 			if ds.Wdl.Kind == dlAt && ds.Wdl.At <= o.M.Now {
 				ds.Wdl, ds.WFired = deadline{Kind: dlExpired}, true
+				o.F.WdlInSink = o.F.WdlInSink || ds.sinkPending()
 			}
 		}
 		return settleBoth(o, -1), ""
